@@ -249,6 +249,12 @@ func (s *Session) handleNodeConnected(host *HostInfo) {
 		s.logger.Printf("gocql: Session.handleNodeConnected: %s:%d\n", host.ConnectAddress(), host.Port())
 	}
 
+	if s.ring.getHost(host.HostID()) != host {
+		// the node was removed (or replaced) while its pool was making the first connection:
+		// announcing it now would put a host the session has forgotten back into the policies
+		return
+	}
+
 	host.setState(NodeUp)
 
 	if !s.cfg.filterHost(host) {
